@@ -306,6 +306,12 @@ fn gen(cases_path: &str, results_path: &str) -> Result<(), String> {
         }
     });
 
+    // is the panic hook installed in main() still the process-wide hook after all these calls?
+    let before = HOOK_CALLS.load(Ordering::SeqCst);
+    let _ = catch_unwind(|| panic!("driver: panic hook probe"));
+    let intact = HOOK_CALLS.load(Ordering::SeqCst) == before + 1;
+    let _ = std::fs::write(format!("{}.meta", results_path), json!({"panic_hook_intact": intact}).to_string());
+
     let output = std::fs::File::create(results_path).map_err(|e| format!("{}: {}", results_path, e))?;
     let mut w = BufWriter::new(output);
     for r in results.into_inner().unwrap() {
@@ -316,9 +322,14 @@ fn gen(cases_path: &str, results_path: &str) -> Result<(), String> {
     w.flush().map_err(|e| e.to_string())
 }
 
+/// calls of the process-wide panic hook the driver installs (C18: a call must not replace the application's hook)
+static HOOK_CALLS: AtomicUsize = AtomicUsize::new(0);
+
 fn main() {
-    // Panics of the generator are expected outcomes; print nothing.
-    std::panic::set_hook(Box::new(|_| {}));
+    // Panics of the generator are expected outcomes; print nothing, but count them.
+    std::panic::set_hook(Box::new(|_| {
+        HOOK_CALLS.fetch_add(1, Ordering::SeqCst);
+    }));
     let args: Vec<String> = std::env::args().collect();
     let code = match args.get(1).map(String::as_str) {
         Some("gen") if args.len() == 4 => match gen(&args[2], &args[3]) {
